@@ -264,6 +264,25 @@ static void run_threads(const std::vector<std::string> &lines, size_t begin, int
     }
     for (int i = 0; i < n; ++i) pthread_join(th[i], 0);
 }
+// shared objects are only ever passed as const arguments by the threads: their bytes after the threads have
+// finished must be the bytes they had when the threads started (a write that no sanitizer sees - assembly,
+// a cast-away const on a failure path - still shows here)
+static std::map<int, bytes_t> g_shared_snapshot;
+static void snapshot_shared() {
+    for (std::map<int, Obj>::iterator it = g_shared.begin(); it != g_shared.end(); ++it)
+        g_shared_snapshot[it->first] = bytes_t((uint8_t *)it->second.mem, (uint8_t *)it->second.mem + it->second.size);
+}
+static void compare_shared(const char *outbase) {
+    char nm[600]; snprintf(nm, sizeof nm, "%s.shared", outbase);       // a trace of its own: thread traces stay identical texts
+    FILE *f = fopen(nm, "w"); if (!f) return;
+    fprintf(f, "{\"e\":\"Reset\"}\n");
+    for (std::map<int, Obj>::iterator it = g_shared.begin(); it != g_shared.end(); ++it) {
+        const bytes_t &b = g_shared_snapshot[it->first];
+        bool same = b.size() == it->second.size && memcmp(&b[0], it->second.mem, b.size()) == 0;
+        fprintf(f, "{\"e\":\"shared.const\",\"obj\":%d,\"kind\":\"%s\",\"same\":%d}\n", it->first, it->second.kind.c_str(), same ? 1 : 0);
+    }
+    fclose(f);
+}
 int main(int argc, char **argv) {
     if (argc < 3) { fprintf(stderr, "usage: drv <plan> <trace> [threads [repeat]]\n"); return 2; }
     FILE *in = strcmp(argv[1], "-") ? fopen(argv[1], "r") : stdin;
@@ -304,7 +323,9 @@ int main(int argc, char **argv) {
         // prologue on the main thread (creates the shared objects); its events open every thread's trace
         for (size_t i = 0; i + 1 < begin; ++i) run_line(lines[i], (long)i + 1);
         fflush(g_out); g_in_prologue = false;
+        snapshot_shared();
         run_threads(lines, begin, nthreads, repeat, argv[2]);
+        compare_shared(argv[2]);
     }
     obj_reset_all();
     fclose(g_out);
